@@ -180,6 +180,8 @@ structure Sweep where
   asg : Assign := []
   inner : List (Rat × Rat) := []
   bad : Bool := false           -- something the code `debug_assert`s against happened
+  mult : Rat := 1               -- the running product `mult` of the code, in the code's order
+  broke : Bool := false         -- the code left its loop early (`mult < EPSILON => break`)
   deriving Repr
 
 def flipAll (l : List Bool) : List Bool := l.map (!·)
@@ -188,7 +190,9 @@ def toggleAt (mask : List Bool) (v : Nat) : List Bool := mask.set v (!getB mask 
 
 def Sweep.commit (E : Ising) (s : Sweep) : Sweep :=
   let bs := boundary E s.st s.mask
-  { s with segs := s.segs ++ [{ bonds := bs.map fun x => (x.2.1, x.2.2) }], asg := s.asg ++ [s.cur], cur := [] }
+  let seg : Seg := { bonds := bs.map fun x => (x.2.1, x.2.2) }
+  { s with segs := s.segs ++ [seg], asg := s.asg ++ [s.cur], cur := [],
+           mult := s.mult * calculateMult seg.wBef seg.wAft s.cur.length }
 
 /-- one operator at slot `p` -/
 def Sweep.stepOp (E : Ising) (R : Region) (s : Sweep) (p : Nat) (o : Op) : Sweep :=
@@ -203,8 +207,11 @@ def Sweep.stepOp (E : Ising) (R : Region) (s : Sweep) (p : Nat) (o : Op) : Sweep
       let isTog := s.tog.head? == some p
       let complIn := o.vars.all (getB s.mask)
       let s1 := if complIn then
-          { s with inner := s.inner ++ [(E.opW o, E.w o.bond (flipAll o.ins) (flipAll o.outs))] } else s
-      let s2 := if !o.tagDiag || isTog then s1.commit E else s1
+          let u := (E.opW o, E.w o.bond (flipAll o.ins) (flipAll o.outs))
+          { s with inner := s.inner ++ [u], mult := s.mult * (u.2 / u.1) } else s
+      -- `if mult < EPSILON { break }` after the Ising factor, and again after the commit
+      let s2 := if s1.mult < f64eps then s1 else if !o.tagDiag || isTog then s1.commit E else s1
+      let s2 := if s2.mult < f64eps then { s2 with broke := true } else s2
       let mask' := if isTog then toggleAt s2.mask (o.vars.headD 0) else s2.mask
       let st' := if !o.tagDiag then writeVars s2.st o.vars o.outs else s2.st
       { s2 with st := st', mask := mask', tog := if isTog then s2.tog.tail else s2.tog,
@@ -215,16 +222,32 @@ def Sweep.run (E : Ising) (R : Region) : Sweep → Nat → Slots → Sweep
   | s, p, none :: t => Sweep.run E R s (p + 1) t
   | s, p, some o :: t => Sweep.run E R (s.stepOp E R p o) (p + 1) t
 
+/-- the same sweep, but stopping where the code breaks out of its loop -/
+def Sweep.runCode (E : Ising) (R : Region) : Sweep → Nat → Slots → Sweep
+  | s, _, [] => s
+  | s, p, none :: t => Sweep.runCode E R s (p + 1) t
+  | s, p, some o :: t =>
+    let s' := s.stepOp E R p o
+    if s'.broke then s' else Sweep.runCode E R s' (p + 1) t
+
 /-- the abstraction of proposing region `R` on configuration `c`, with the current assignment -/
 def extract (E : Ising) (c : Config) (R : Region) : Problem × Assign × Bool :=
   let s0 : Sweep := { st := c.state, mask := R.mask0, tog := R.toggles }
   let s := (Sweep.run E R s0 0 c.slots).commit E
   ({ segs := s.segs, inner := s.inner }, s.asg, !s.bad && s.tog.isEmpty && s.mask == R.mask0)
 
-/-- the multiplier `calculate_flip_prob` returns for region `R` on configuration `c` -/
+/-- the multiplier of the segment abstraction for region `R` on configuration `c` -/
 def rvbRawMult (E : Ising) (c : Config) (R : Region) : Rat :=
   let (P, a, _) := extract E c R
   rawMult P (a.map List.length)
+
+/-- the value `calculate_flip_prob` returns, computed in the code's order including the early
+exit once the running product is below `f64::EPSILON` (then the value is a truncated product,
+itself below EPSILON times the last pending factor). Returns the value and "left early". -/
+def rvbCodeMult (E : Ising) (c : Config) (R : Region) : Rat × Bool :=
+  let s0 : Sweep := { st := c.state, mask := R.mask0, tog := R.toggles }
+  let s := Sweep.runCode E R s0 0 c.slots
+  ((s.commit E).mult, s.broke)
 
 /-- the acceptance probability of the proposal -/
 def rvbAcceptProb (E : Ising) (c : Config) (R : Region) : Rat :=
@@ -252,9 +275,23 @@ def rebondOk (E : Ising) (st mask : List Bool) (o o' : Op) : Bool :=
   match bs.find? (·.1 == o'.bond) with
   | some (b, _, wa) =>
     let (u, v, _) := E.edges.getD b (0, 0, 0)
-    o.tagDiag && decide (0 < wa) && o'.vars == [u, v] && o'.ins == [getB st' u, getB st' v] &&
-      o'.outs == o'.ins && o'.tagDiag && o'.const == o.const
+    o.tagDiag && decide (0 < wa) && decide (0 < E.opW o') && o'.vars == [u, v] &&
+      o'.ins == [getB st' u, getB st' v] && o'.outs == o'.ins && o'.tagDiag && o'.const == o.const &&
+      decide (u ≠ v) && o.outs == o.ins
   | none => false
+
+/-- an operator that is not on a boundary bond: `o'` must be `xorOp o …`; returns the
+membership after the slot and the remaining toggles. At a toggle the operator must be a constant
+one-variable operator; elsewhere it must lie completely inside or completely outside. -/
+def flipStep (E : Ising) (p : Nat) (mask : List Bool) (tog : List Nat) (o o' : Op) :
+    Option (List Bool × List Nat) :=
+  let isTog := tog.head? == some p
+  let mask2 := if isTog then toggleAt mask (o.vars.headD 0) else mask
+  let ok := (if isTog then o.const && o.vars.length == 1
+             else (o.vars.all (getB mask) || o.vars.all (fun v => !getB mask v))) &&
+    decide o.vars.Nodup && o.ins.length == o.vars.length && o.outs.length == o.vars.length &&
+    o' == xorOp o mask mask2 isTog && decide (0 < E.opW o')
+  if ok then some (mask2, if isTog then tog.tail else tog) else none
 
 /-- walk both operator strings in lock step -/
 def moveSteps (E : Ising) : Nat → List Bool → List Bool → List Nat → Slots → Slots → Option (List Bool × List Nat)
@@ -265,14 +302,9 @@ def moveSteps (E : Ising) : Nat → List Bool → List Bool → List Nat → Slo
     else if (boundary E st mask).any (·.1 == o.bond) then
       if rebondOk E st mask o o' then moveSteps E (p + 1) (writeVars st o.vars o.outs) mask tog s s' else none
     else
-      let isTog := tog.head? == some p
-      let allIn := o.vars.all (getB mask)
-      let noneIn := o.vars.all (fun v => !getB mask v)
-      let mask2 := if isTog then toggleAt mask (o.vars.headD 0) else mask
-      if (isTog && !(o.const && o.vars.length == 1)) || (!isTog && !(allIn || noneIn)) then none
-      else if o' == xorOp o mask mask2 isTog && decide (0 < E.opW o') then
-        moveSteps E (p + 1) (writeVars st o.vars o.outs) mask2 (if isTog then tog.tail else tog) s s'
-      else none
+      match flipStep E p mask tog o o' with
+      | some (mask2, tog2) => moveSteps E (p + 1) (writeVars st o.vars o.outs) mask2 tog2 s s'
+      | none => none
   | _, _, _, _, _, _ => none
 
 /-- decider: `after` is an RVB move of `before` on region `R` -/
